@@ -64,6 +64,23 @@ pub fn run(ctx: &mut Ctx) {
             }
         }
     }
+    // two and three byte-order marks in a row (only the first one is a BOM), followed by content
+    if ctx.shard == 0 {
+        let boms: [&[u8]; 3] = [&[0xEF, 0xBB, 0xBF], &[0xFF, 0xFE], &[0xFE, 0xFF]];
+        let mut k = 0u64;
+        for (bi, bom) in boms.iter().enumerate() {
+            for reps in 2..=3usize {
+                let mut b = Vec::new();
+                for _ in 0..reps {
+                    b.extend_from_slice(bom);
+                }
+                b.extend_from_slice(&tails[bi]);
+                k += 1;
+                let mut r = ctx.rng_for(4, k);
+                one_input(ctx, 4 << 56 | k, &b, "repeated-bom-with-content", &mut r, false);
+            }
+        }
+    }
     ctx.note(format!("exhaustive part: all {} byte strings of length <= {max_len} over [EF BB BF FF FE LF 'a' 00 '['] under every fixed chunk size", idx));
 
     // stream 3: one line far longer than any buffer a reader might size for itself (over 1 MiB), a few deliveries
